@@ -675,6 +675,24 @@ func generateSliceValue(method, value string, fieldType reflect.Type) string {
 				}
 			}
 			return fmt.Sprintf(".%s([]float64{%s})", method, strings.Join(items, ", "))
+		case reflect.Int8, reflect.Int16, reflect.Int32, reflect.Int64,
+			reflect.Uint, reflect.Uint8, reflect.Uint16, reflect.Uint32, reflect.Uint64:
+			// the other integer kinds, like reflect.Int above; the kind's name is the type's name
+			items := make([]string, 0, len(jsonResult))
+			for _, item := range jsonResult {
+				if num, ok := item.(float64); ok {
+					items = append(items, strconv.FormatInt(int64(num), 10))
+				}
+			}
+			return fmt.Sprintf(".%s([]%s{%s})", method, elemType.Kind(), strings.Join(items, ", "))
+		case reflect.Float32:
+			items := make([]string, 0, len(jsonResult))
+			for _, item := range jsonResult {
+				if num, ok := item.(float64); ok {
+					items = append(items, fmt.Sprintf("%g", num))
+				}
+			}
+			return fmt.Sprintf(".%s([]float32{%s})", method, strings.Join(items, ", "))
 		case reflect.Bool:
 			items := make([]string, 0, len(jsonResult))
 			for _, item := range jsonResult {
